@@ -237,3 +237,29 @@ Proof.
   split; [discriminate|]. repeat split; vm_compute; reflexivity.
 Qed.
 Print Assumptions set_get_mismatch_refuted.
+
+(* 9. every channel of a layer (one plane of width*height 8-bit samples, stored through
+   ChannelData.set_data = the same container with a single plane) survives storage with each of
+   the four compression methods *)
+Theorem layer_channel_storage : forall c cm w h p,
+  1 <= w -> 1 <= h -> zlen p = w * h ->
+  (do st <- set_data c (mkH cm 1 w h 8) [p]; get_data st (mkH cm 1 w h 8)) = Ok [p].
+Proof.
+  intros c cm w h p Hw Hh Hp. apply Proofs.set_get_inverse.
+  - unfold header_ok, depth_ok; cbn; lia.
+  - split; [reflexivity|]. constructor; [|constructor].
+    unfold plane_bytes. cbn [h_w h_h h_depth]. change (bps 8) with 1. lia.
+Qed.
+Print Assumptions layer_channel_storage.
+
+Example layer_alpha_kept_hyp :
+  fx_alpha fixed = true /\ r_mode (gen_raster MLA 2 2 9 5 2) <> M1 /\
+  has_alpha (r_mode (gen_raster MLA 2 2 9 5 2)) = true /\
+  find_chan (-1) (layer_frompil conv_simple fixed (Some MCMYK) (gen_raster MLA 2 2 9 5 2) 0 0)
+    = Some (last_band (gen_raster MLA 2 2 9 5 2)).
+Proof. repeat split; try discriminate; vm_compute; reflexivity. Qed.
+
+Example doc_roundtrip_hyp :
+  doc_export conv_simple (mkCfg true true false false false) ZIPP (gen_raster MCMYK 3 2 1 7 0)
+  = Ok (gen_raster MCMYK 3 2 1 7 0).
+Proof. vm_compute. reflexivity. Qed.
